@@ -443,7 +443,7 @@ pub fn property() -> Property {
         id: "C02",
         run,
         budget: |t| match t {
-            Tier::Quick => 6000,
+            Tier::Quick => 24000,
             Tier::Thorough => 600_000,
         },
         wall_cap_s: |t| match t {
